@@ -397,8 +397,8 @@ class TimeSeries:
             basename = self.header.basename
         self.header.make_inf(outfile=f"{basename}.inf")
         out_filename = f"{basename}.dat"
-        with self.header.prep_outfile(out_filename, nbits=32) as outfile:
-            outfile.cwrite(self.data)
+        # A presto .dat file is headerless float32 samples; the metadata is in the .inf
+        self.data.tofile(out_filename)
         return out_filename
 
     def to_tim(self, filename: str | None = None) -> str:
